@@ -6,7 +6,7 @@ CHECKS["C04"] = dict(
           "presentation order, x 3 rulesets; plus rapid-generated forests of <= 10 (quick) / 14 (thorough) blocks biased 60% "
           "towards extending the newest block (plus equivocating siblings with equal views and competing branches), with presentation orders (70% creation order), blocks that enter the store "
           "silently or stay missing, and a view argument of block view -1/0/+1. Presentation mirrors the callers: VoteRule, "
-          "and if yes Store + CommitRule. Oracle: independent reference implementation of the published rules over the "
+          "and if yes Store + CommitRule, and when that names a newer block the committer's PruneToHeight(block, its view) (no decision may depend on pruning). Oracle: independent reference implementation of the published rules over the "
           "description; compared after every presentation: vote decision, committed block, lock. Non-trivial = the forest has "
           "a fork and a view gap and at least one refusal or commit; distinct = the forest+order string."),
     assumptions=["the reference is this harness' reading of the HotStuff, Fast-HotStuff and simplified-HotStuff papers",
